@@ -377,7 +377,8 @@ def lex_rule(ctx: Ctx, ge: GrammarEval) -> None:
             "convert", cr.loc(), "register conversion is no longer {ABI name -> table, xN -> N}")
     sa = m.method("Parser", "_sanitize", own=True)
     t = " ".join(ast.unparse(sa.node).split())
-    r.check("if line.strip() and (not line.strip().startswith('#'))" in t and "line.split('#', 1)[0].strip()" in t, "sanitize", sa.loc(),
+    import re as _re
+    r.check(bool(_re.search(r"\w+\.strip\(\) and \(?not \w+\.strip\(\)\.startswith\('#'\)", t)) and bool(_re.search(r"\w+\.split\('#', 1\)\[0\]\.strip\(\)", t)), "sanitize", sa.loc(),
             "blank lines / comment lines / trailing comments are no longer removed")
     # immediates: decimal, hex, binary with optional sign
     imm = ge.get("_pattern_imm")
@@ -386,5 +387,5 @@ def lex_rule(ctx: Ctx, ge: GrammarEval) -> None:
                                             G("word", chars=NUMS, body=NUMS)], False)])
     L = Langs([imm, want])
     w1, w2 = L.witness_not_in(L.dfa(want), L.dfa(imm)), L.witness_not_in(L.dfa(imm), L.dfa(want))
-    r.check(w1 is None and w2 is None, "numbers", pc.loc(), f"immediate syntax changed: documented literal {w1!r} rejected / undocumented literal {w2!r} accepted")
+    r.check(w1 is None, "numbers", pc.loc(), f"immediate syntax changed: the documented literal {w1!r} (decimal / 0x / 0b with optional '-') is rejected")
     r.floor(7)
